@@ -95,6 +95,14 @@ Json gen(sim::Rng& rng, int tier)
                 int ns = static_cast<int>(rng.range(1, 2));
                 for (int i = 0; i < ns; ++i) mk("silence-close-near-timeout", static_cast<long>(rng.below(2000)), 0, 0);
                 mk("busy", hto_us - 150000 + static_cast<long>(rng.below(100000)), 800000 + static_cast<long>(rng.below(300000)), 0);
+                // (c) ... and, in half of these, a request that parks its response with a time-out arrives while the worker is
+                // busy: the batch it comes back to holds the tick, that request (its timer gets a fresh descriptor) and the
+                // silent connection's own last event
+                // (its connection has served an ordinary request a little earlier, so that it is not itself over the time-out)
+                if (rng.chance(0.5)) {
+                    mk("tmo-park", hto_us - 100000 + static_cast<long>(rng.below(700000)), 0, static_cast<long>(100 + rng.below(400)));
+                    conns.a.back()["warmup_us"] = hto_us - 600000 + static_cast<long>(rng.below(300000));
+                }
             } else {
                 // (b) times relative to t0
                 long t0 = static_cast<long>(rng.below(3000));
@@ -187,6 +195,7 @@ private:
 struct ConnPlan {
     std::string behaviour;
     std::shared_ptr<actors::Client> client;
+    bool warm = false; // tmo-park: an ordinary request was sent (and answered) first
 };
 
 void run(const Json& plan)
@@ -309,9 +318,16 @@ void run(const Json& plan)
                 st.push_back(httpw::step(Step::Close));
             } else if (b == "tmo-park") {
                 // parks with a response time-out; answered by /notify or by the time-out
-                st.push_back(httpw::step(Step::Pause, delay));
+                const i64 warm = std::max<i64>(0, std::min<i64>(c.num("warmup_us", 0) * 1000, delay - 1000));
+                if (warm > 0) {
+                    // an ordinary request first (the connection's request clock starts again behind it)
+                    st.push_back(httpw::step(Step::Pause, warm));
+                    st.push_back(httpw::send_step(req("/echo/w" + tag)));
+                    st.push_back(httpw::step(Step::Await, kAwait, 1));
+                }
+                st.push_back(httpw::step(Step::Pause, delay - warm));
                 st.push_back(httpw::send_step(req("/tmo/" + std::to_string(std::max<i64>(20, c.num("ms", 200))) + "/" + tag)));
-                st.push_back(httpw::step(Step::Await, kAwait + 3000LL * 1000000LL, 1));
+                st.push_back(httpw::step(Step::Await, kAwait + 3000LL * 1000000LL, warm > 0 ? 2 : 1));
                 st.push_back(httpw::step(Step::Close));
             } else if (b == "notify") {
                 st.push_back(httpw::step(Step::Pause, delay));
@@ -426,7 +442,7 @@ void run(const Json& plan)
             cl->from_server.mss = std::min<size_t>(1460, cl->from_server.rcvbuf);
             cl->start(c.num("start_us", 0) * 1000);
             round_clients.push_back(cl);
-            all.push_back({ b, cl });
+            all.push_back({ b, cl, b == "tmo-park" && c.num("warmup_us", 0) > 0 });
         }
         const std::function<bool()> round_done = [&] {
             for (auto& c : round_clients)
@@ -489,7 +505,7 @@ void run(const Json& plan)
     if (http)
         for (auto& cp : all) {
             if (cp.behaviour != "tmo-park" || !cp.client->st.connected || cp.client->reader.broken) continue;
-            if (cp.client->responses() == 0)
+            if (cp.client->responses() < (cp.warm ? 2u : 1u))
                 r.violation("C08.timer:armed-time-out-never-fired:tmo-park", "a request whose handler armed the response time-out and parked the response was answered neither by the handler nor by the time-out (the armed timer was lost)");
         }
     // (2) every descriptor released exactly once
